@@ -1,5 +1,5 @@
 // auto-generated: "lalrpop 0.23.1"
-// sha3: ef72d4efcccfb5e28620dc17e5bbc4f8f7e258816e8403b37ae989fd357ce7ff
+// sha3: 19db5f3d3d8aaf5d8991203324eeeec8f3a00201a2cfcd384f33ab5c37fcdd9e
 use crate::rt::*;
 #[allow(unused_extern_crates)]
 extern crate lalrpop_util as __lalrpop_util;
@@ -1290,15 +1290,15 @@ fn __action0<
 fn __action1<
 >(
     (_, l, _): (i64, i64, i64),
+    (_, pL0, _): (i64, i64, i64),
     (_, c0, _): (i64, Tok, i64),
     (_, c1, _): (i64, Tree, i64),
-    (_, pL2, _): (i64, i64, i64),
+    (_, pR2, _): (i64, i64, i64),
     (_, c2, _): (i64, Tok, i64),
-    (_, pL3, _): (i64, i64, i64),
     (_, r, _): (i64, i64, i64),
 ) -> Tree
 {
-    { probe("S#0", 2, 'L', pL2); probe("S#0", 3, 'L', pL3); node("S#0", l, r, vec![Tree::from(c0), Tree::from(c1), Tree::from(c2)]) }
+    { probe("S#0", 0, 'L', pL0); probe("S#0", 2, 'R', pR2); node("S#0", l, r, vec![Tree::from(c0), Tree::from(c1), Tree::from(c2)]) }
 }
 
 #[allow(clippy::too_many_arguments, clippy::needless_lifetimes, clippy::just_underscores_and_digits, clippy::extra_unused_type_parameters)]
@@ -1307,12 +1307,11 @@ fn __action2<
     (_, l, _): (i64, i64, i64),
     (_, c0, _): (i64, Tok, i64),
     (_, c1, _): (i64, Tree, i64),
-    (_, pR2, _): (i64, i64, i64),
     (_, c2, _): (i64, Tok, i64),
     (_, r, _): (i64, i64, i64),
 ) -> Tree
 {
-    { probe("S#1", 2, 'R', pR2); node("S#1", l, r, vec![Tree::from(c0), Tree::from(c1), Tree::from(c2)]) }
+    node("S#1", l, r, vec![Tree::from(c0), Tree::from(c1), Tree::from(c2)])
 }
 
 #[allow(clippy::too_many_arguments, clippy::needless_lifetimes, clippy::just_underscores_and_digits, clippy::extra_unused_type_parameters)]
@@ -1321,57 +1320,54 @@ fn __action3<
     (_, l, _): (i64, i64, i64),
     (_, c0, _): (i64, Tok, i64),
     (_, c1, _): (i64, Tree, i64),
-    (_, pR2, _): (i64, i64, i64),
     (_, c2, _): (i64, Tok, i64),
     (_, pL3, _): (i64, i64, i64),
     (_, r, _): (i64, i64, i64),
 ) -> Tree
 {
-    { probe("S#2", 2, 'R', pR2); probe("S#2", 3, 'L', pL3); node("S#2", l, r, vec![Tree::from(c0), Tree::from(c1), Tree::from(c2)]) }
+    { probe("S#2", 3, 'L', pL3); node("S#2", l, r, vec![Tree::from(c0), Tree::from(c1), Tree::from(c2)]) }
 }
 
 #[allow(clippy::too_many_arguments, clippy::needless_lifetimes, clippy::just_underscores_and_digits, clippy::extra_unused_type_parameters)]
 fn __action4<
 >(
     (_, l, _): (i64, i64, i64),
-    (_, pL0, _): (i64, i64, i64),
+    (_, pR0, _): (i64, i64, i64),
     (_, c0, _): (i64, Tok, i64),
     (_, c1, _): (i64, Tree, i64),
     (_, c2, _): (i64, Tok, i64),
-    (_, pL3, _): (i64, i64, i64),
     (_, r, _): (i64, i64, i64),
 ) -> Tree
 {
-    { probe("S#3", 0, 'L', pL0); probe("S#3", 3, 'L', pL3); node("S#3", l, r, vec![Tree::from(c0), Tree::from(c1), Tree::from(c2)]) }
+    { probe("S#3", 0, 'R', pR0); node("S#3", l, r, vec![Tree::from(c0), Tree::from(c1), Tree::from(c2)]) }
 }
 
 #[allow(clippy::too_many_arguments, clippy::needless_lifetimes, clippy::just_underscores_and_digits, clippy::extra_unused_type_parameters)]
 fn __action5<
 >(
     (_, l, _): (i64, i64, i64),
-    (_, pL0, _): (i64, i64, i64),
+    (_, pR0, _): (i64, i64, i64),
     (_, c0, _): (i64, Tok, i64),
     (_, c1, _): (i64, Tree, i64),
     (_, c2, _): (i64, Tree, i64),
+    (_, pR3, _): (i64, i64, i64),
     (_, r, _): (i64, i64, i64),
 ) -> Tree
 {
-    { probe("X#0", 0, 'L', pL0); node("X#0", l, r, vec![Tree::from(c0), Tree::from(c1), Tree::from(c2)]) }
+    { probe("X#0", 0, 'R', pR0); probe("X#0", 3, 'R', pR3); node("X#0", l, r, vec![Tree::from(c0), Tree::from(c1), Tree::from(c2)]) }
 }
 
 #[allow(clippy::too_many_arguments, clippy::needless_lifetimes, clippy::just_underscores_and_digits, clippy::extra_unused_type_parameters)]
 fn __action6<
 >(
     (_, l, _): (i64, i64, i64),
-    (_, pR0, _): (i64, i64, i64),
     (_, c0, _): (i64, Tok, i64),
-    (_, pL1, _): (i64, i64, i64),
     (_, c1, _): (i64, Tree, i64),
     (_, c2, _): (i64, Tree, i64),
     (_, r, _): (i64, i64, i64),
 ) -> Tree
 {
-    { probe("Y#0", 0, 'R', pR0); probe("Y#0", 1, 'L', pL1); node("Y#0", l, r, vec![Tree::from(c0), Tree::from(c1), Tree::from(c2)]) }
+    node("Y#0", l, r, vec![Tree::from(c0), Tree::from(c1), Tree::from(c2)])
 }
 
 #[allow(clippy::too_many_arguments, clippy::needless_lifetimes, clippy::just_underscores_and_digits, clippy::extra_unused_type_parameters)]
@@ -1532,16 +1528,15 @@ fn __action17<
 >(
     __0: (i64, Tok, i64),
     __1: (i64, Tree, i64),
-    __2: (i64, Tok, i64),
-    __3: (i64, i64, i64),
+    __2: (i64, i64, i64),
+    __3: (i64, Tok, i64),
+    __4: (i64, i64, i64),
 ) -> Tree
 {
     let __start0 = __0.0.clone();
     let __end0 = __0.0.clone();
-    let __start1 = __1.2.clone();
-    let __end1 = __2.0.clone();
-    let __start2 = __2.2.clone();
-    let __end2 = __3.0.clone();
+    let __start1 = __0.0.clone();
+    let __end1 = __0.0.clone();
     let __temp0 = __action12(
         &__start0,
         &__end0,
@@ -1552,19 +1547,14 @@ fn __action17<
         &__end1,
     );
     let __temp1 = (__start1, __temp1, __end1);
-    let __temp2 = __action12(
-        &__start2,
-        &__end2,
-    );
-    let __temp2 = (__start2, __temp2, __end2);
     __action1(
         __temp0,
+        __temp1,
         __0,
         __1,
-        __temp1,
         __2,
-        __temp2,
         __3,
+        __4,
     )
 }
 
@@ -1574,9 +1564,8 @@ fn __action18<
 >(
     __0: (i64, Tok, i64),
     __1: (i64, Tree, i64),
-    __2: (i64, i64, i64),
-    __3: (i64, Tok, i64),
-    __4: (i64, i64, i64),
+    __2: (i64, Tok, i64),
+    __3: (i64, i64, i64),
 ) -> Tree
 {
     let __start0 = __0.0.clone();
@@ -1592,7 +1581,6 @@ fn __action18<
         __1,
         __2,
         __3,
-        __4,
     )
 }
 
@@ -1602,15 +1590,14 @@ fn __action19<
 >(
     __0: (i64, Tok, i64),
     __1: (i64, Tree, i64),
-    __2: (i64, i64, i64),
-    __3: (i64, Tok, i64),
-    __4: (i64, i64, i64),
+    __2: (i64, Tok, i64),
+    __3: (i64, i64, i64),
 ) -> Tree
 {
     let __start0 = __0.0.clone();
     let __end0 = __0.0.clone();
-    let __start1 = __3.2.clone();
-    let __end1 = __4.0.clone();
+    let __start1 = __2.2.clone();
+    let __end1 = __3.0.clone();
     let __temp0 = __action12(
         &__start0,
         &__end0,
@@ -1626,9 +1613,8 @@ fn __action19<
         __0,
         __1,
         __2,
-        __3,
         __temp1,
-        __4,
+        __3,
     )
 }
 
@@ -1636,41 +1622,27 @@ fn __action19<
     clippy::just_underscores_and_digits, clippy::clone_on_copy, clippy::unit_arg)]
 fn __action20<
 >(
-    __0: (i64, Tok, i64),
-    __1: (i64, Tree, i64),
-    __2: (i64, Tok, i64),
-    __3: (i64, i64, i64),
+    __0: (i64, i64, i64),
+    __1: (i64, Tok, i64),
+    __2: (i64, Tree, i64),
+    __3: (i64, Tok, i64),
+    __4: (i64, i64, i64),
 ) -> Tree
 {
     let __start0 = __0.0.clone();
     let __end0 = __0.0.clone();
-    let __start1 = __0.0.clone();
-    let __end1 = __0.0.clone();
-    let __start2 = __2.2.clone();
-    let __end2 = __3.0.clone();
     let __temp0 = __action12(
         &__start0,
         &__end0,
     );
     let __temp0 = (__start0, __temp0, __end0);
-    let __temp1 = __action12(
-        &__start1,
-        &__end1,
-    );
-    let __temp1 = (__start1, __temp1, __end1);
-    let __temp2 = __action12(
-        &__start2,
-        &__end2,
-    );
-    let __temp2 = (__start2, __temp2, __end2);
     __action4(
         __temp0,
-        __temp1,
         __0,
         __1,
         __2,
-        __temp2,
         __3,
+        __4,
     )
 }
 
@@ -1678,6 +1650,36 @@ fn __action20<
     clippy::just_underscores_and_digits, clippy::clone_on_copy, clippy::unit_arg)]
 fn __action21<
 >(
+    __0: (i64, i64, i64),
+    __1: (i64, Tok, i64),
+    __2: (i64, Tree, i64),
+    __3: (i64, Tree, i64),
+    __4: (i64, i64, i64),
+    __5: (i64, i64, i64),
+) -> Tree
+{
+    let __start0 = __0.0.clone();
+    let __end0 = __0.0.clone();
+    let __temp0 = __action12(
+        &__start0,
+        &__end0,
+    );
+    let __temp0 = (__start0, __temp0, __end0);
+    __action5(
+        __temp0,
+        __0,
+        __1,
+        __2,
+        __3,
+        __4,
+        __5,
+    )
+}
+
+#[allow(clippy::too_many_arguments, clippy::needless_lifetimes,
+    clippy::just_underscores_and_digits, clippy::clone_on_copy, clippy::unit_arg)]
+fn __action22<
+>(
     __0: (i64, Tok, i64),
     __1: (i64, Tree, i64),
     __2: (i64, Tree, i64),
@@ -1686,61 +1688,17 @@ fn __action21<
 {
     let __start0 = __0.0.clone();
     let __end0 = __0.0.clone();
-    let __start1 = __0.0.clone();
-    let __end1 = __0.0.clone();
     let __temp0 = __action12(
         &__start0,
         &__end0,
     );
     let __temp0 = (__start0, __temp0, __end0);
-    let __temp1 = __action12(
-        &__start1,
-        &__end1,
-    );
-    let __temp1 = (__start1, __temp1, __end1);
-    __action5(
-        __temp0,
-        __temp1,
-        __0,
-        __1,
-        __2,
-        __3,
-    )
-}
-
-#[allow(clippy::too_many_arguments, clippy::needless_lifetimes,
-    clippy::just_underscores_and_digits, clippy::clone_on_copy, clippy::unit_arg)]
-fn __action22<
->(
-    __0: (i64, i64, i64),
-    __1: (i64, Tok, i64),
-    __2: (i64, Tree, i64),
-    __3: (i64, Tree, i64),
-    __4: (i64, i64, i64),
-) -> Tree
-{
-    let __start0 = __0.0.clone();
-    let __end0 = __0.0.clone();
-    let __start1 = __1.2.clone();
-    let __end1 = __2.0.clone();
-    let __temp0 = __action12(
-        &__start0,
-        &__end0,
-    );
-    let __temp0 = (__start0, __temp0, __end0);
-    let __temp1 = __action12(
-        &__start1,
-        &__end1,
-    );
-    let __temp1 = (__start1, __temp1, __end1);
     __action6(
         __temp0,
         __0,
         __1,
-        __temp1,
         __2,
         __3,
-        __4,
     )
 }
 
@@ -1835,18 +1793,26 @@ fn __action27<
     __2: (i64, Tok, i64),
 ) -> Tree
 {
-    let __start0 = __2.2.clone();
-    let __end0 = __2.2.clone();
+    let __start0 = __1.2.clone();
+    let __end0 = __2.0.clone();
+    let __start1 = __2.2.clone();
+    let __end1 = __2.2.clone();
     let __temp0 = __action11(
         &__start0,
         &__end0,
     );
     let __temp0 = (__start0, __temp0, __end0);
+    let __temp1 = __action11(
+        &__start1,
+        &__end1,
+    );
+    let __temp1 = (__start1, __temp1, __end1);
     __action17(
         __0,
         __1,
-        __2,
         __temp0,
+        __2,
+        __temp1,
     )
 }
 
@@ -1859,26 +1825,18 @@ fn __action28<
     __2: (i64, Tok, i64),
 ) -> Tree
 {
-    let __start0 = __1.2.clone();
-    let __end0 = __2.0.clone();
-    let __start1 = __2.2.clone();
-    let __end1 = __2.2.clone();
+    let __start0 = __2.2.clone();
+    let __end0 = __2.2.clone();
     let __temp0 = __action11(
         &__start0,
         &__end0,
     );
     let __temp0 = (__start0, __temp0, __end0);
-    let __temp1 = __action11(
-        &__start1,
-        &__end1,
-    );
-    let __temp1 = (__start1, __temp1, __end1);
     __action18(
         __0,
         __1,
-        __temp0,
         __2,
-        __temp1,
+        __temp0,
     )
 }
 
@@ -1891,26 +1849,18 @@ fn __action29<
     __2: (i64, Tok, i64),
 ) -> Tree
 {
-    let __start0 = __1.2.clone();
-    let __end0 = __2.0.clone();
-    let __start1 = __2.2.clone();
-    let __end1 = __2.2.clone();
+    let __start0 = __2.2.clone();
+    let __end0 = __2.2.clone();
     let __temp0 = __action11(
         &__start0,
         &__end0,
     );
     let __temp0 = (__start0, __temp0, __end0);
-    let __temp1 = __action11(
-        &__start1,
-        &__end1,
-    );
-    let __temp1 = (__start1, __temp1, __end1);
     __action19(
         __0,
         __1,
-        __temp0,
         __2,
-        __temp1,
+        __temp0,
     )
 }
 
@@ -1921,54 +1871,6 @@ fn __action30<
     __0: (i64, Tok, i64),
     __1: (i64, Tree, i64),
     __2: (i64, Tok, i64),
-) -> Tree
-{
-    let __start0 = __2.2.clone();
-    let __end0 = __2.2.clone();
-    let __temp0 = __action11(
-        &__start0,
-        &__end0,
-    );
-    let __temp0 = (__start0, __temp0, __end0);
-    __action20(
-        __0,
-        __1,
-        __2,
-        __temp0,
-    )
-}
-
-#[allow(clippy::too_many_arguments, clippy::needless_lifetimes,
-    clippy::just_underscores_and_digits, clippy::clone_on_copy, clippy::unit_arg)]
-fn __action31<
->(
-    __0: (i64, Tok, i64),
-    __1: (i64, Tree, i64),
-    __2: (i64, Tree, i64),
-) -> Tree
-{
-    let __start0 = __2.2.clone();
-    let __end0 = __2.2.clone();
-    let __temp0 = __action11(
-        &__start0,
-        &__end0,
-    );
-    let __temp0 = (__start0, __temp0, __end0);
-    __action21(
-        __0,
-        __1,
-        __2,
-        __temp0,
-    )
-}
-
-#[allow(clippy::too_many_arguments, clippy::needless_lifetimes,
-    clippy::just_underscores_and_digits, clippy::clone_on_copy, clippy::unit_arg)]
-fn __action32<
->(
-    __0: (i64, Tok, i64),
-    __1: (i64, Tree, i64),
-    __2: (i64, Tree, i64),
 ) -> Tree
 {
     let __start0 = __0.0.clone();
@@ -1985,12 +1887,76 @@ fn __action32<
         &__end1,
     );
     let __temp1 = (__start1, __temp1, __end1);
-    __action22(
+    __action20(
         __temp0,
         __0,
         __1,
         __2,
         __temp1,
+    )
+}
+
+#[allow(clippy::too_many_arguments, clippy::needless_lifetimes,
+    clippy::just_underscores_and_digits, clippy::clone_on_copy, clippy::unit_arg)]
+fn __action31<
+>(
+    __0: (i64, Tok, i64),
+    __1: (i64, Tree, i64),
+    __2: (i64, Tree, i64),
+) -> Tree
+{
+    let __start0 = __0.0.clone();
+    let __end0 = __0.0.clone();
+    let __start1 = __2.2.clone();
+    let __end1 = __2.2.clone();
+    let __start2 = __2.2.clone();
+    let __end2 = __2.2.clone();
+    let __temp0 = __action11(
+        &__start0,
+        &__end0,
+    );
+    let __temp0 = (__start0, __temp0, __end0);
+    let __temp1 = __action11(
+        &__start1,
+        &__end1,
+    );
+    let __temp1 = (__start1, __temp1, __end1);
+    let __temp2 = __action11(
+        &__start2,
+        &__end2,
+    );
+    let __temp2 = (__start2, __temp2, __end2);
+    __action21(
+        __temp0,
+        __0,
+        __1,
+        __2,
+        __temp1,
+        __temp2,
+    )
+}
+
+#[allow(clippy::too_many_arguments, clippy::needless_lifetimes,
+    clippy::just_underscores_and_digits, clippy::clone_on_copy, clippy::unit_arg)]
+fn __action32<
+>(
+    __0: (i64, Tok, i64),
+    __1: (i64, Tree, i64),
+    __2: (i64, Tree, i64),
+) -> Tree
+{
+    let __start0 = __2.2.clone();
+    let __end0 = __2.2.clone();
+    let __temp0 = __action11(
+        &__start0,
+        &__end0,
+    );
+    let __temp0 = (__start0, __temp0, __end0);
+    __action22(
+        __0,
+        __1,
+        __2,
+        __temp0,
     )
 }
 
